@@ -15,7 +15,7 @@ import (
 )
 
 func init() {
-	props["C10"] = &propDef{extraPkgs: []string{jsonPatchPkg}, run: runC10, explanation: "Partial (thin): the list algebra itself (insert-or-replace keeping order, set union/difference, RFC 6902 semantics, id uniqueness) is value-level and NOT decided. Decided statically: (T1) the action tables agree — keys of patch.actionConfig = case constants of patchvalidator.Validate = case constants of the composer's dispatch = the eight patch.Action constants, each composer case calls its own handler and anything else is an error; (E1) handler write-sets — the key/service/also-known-as handlers write exactly their own member of the working document, replace builds a fresh document with exactly the two members taken from the replace document's publicKeys/services, ietf-json-patch returns the library output re-parsed; (P1) ApplyPatches is a left fold: deep copy of the document parameter, then one loop over the patches parameter in index order threading the result, the final result returned; (X2) sibling decision skeletons — for every append/update site in a handler's loop, which collection is iterated (document vs patch value), which collection the membership set is built from, the polarity of the membership test and what is appended; the three remove-handlers, the two keyed add-handlers and add-also-known-as must each match the documented skeleton (this catches an inverted keep condition, a dropped replace branch, a wrong source collection). Every handler loop visits every element: the only way out of a top-level loop body is an error return (a break drops the remaining entries). RFC 6902 operations are a left fold of the library's Apply over the document bytes (nothing else produces the running bytes, every successful exit returns them), and the applying function refuses only what the library refuses or a copy of a value into itself. Every list handler writes the rebuilt list back into the document on every accepting path. The copy guard lets an operation through exactly when from has at least as many tokens as path (three orderings). Replace-by-id searches every index of the list. Token unescape order of the copy guard; list accessors hand back every entry; (Document).Bytes reaches json.Marshal / Unmarshal only; document accessors read the member the composer writes; nothing else writes the running document of the fold. The fold rule runs C19.G and C19.H (composer); entries of add / replace patches are stored as they are. Set builders keep every element; every operation's verdict is heeded. The library's copy / move must add at the destination (known finding D15)."}
+	props["C10"] = &propDef{extraPkgs: []string{jsonPatchPkg}, run: runC10, explanation: "Partial (thin): the list algebra itself (insert-or-replace keeping order, set union/difference, RFC 6902 semantics, id uniqueness) is value-level and NOT decided. Decided statically: (T1) the action tables agree — keys of patch.actionConfig = case constants of patchvalidator.Validate = case constants of the composer's dispatch = the eight patch.Action constants, each composer case calls its own handler and anything else is an error; (E1) handler write-sets — the key/service/also-known-as handlers write exactly their own member of the working document, replace builds a fresh document with exactly the two members taken from the replace document's publicKeys/services, ietf-json-patch returns the library output re-parsed; (P1) ApplyPatches is a left fold: deep copy of the document parameter, then one loop over the patches parameter in index order threading the result, the final result returned; (X2) sibling decision skeletons — for every append/update site in a handler's loop, which collection is iterated (document vs patch value), which collection the membership set is built from, the polarity of the membership test and what is appended; the three remove-handlers, the two keyed add-handlers and add-also-known-as must each match the documented skeleton (this catches an inverted keep condition, a dropped replace branch, a wrong source collection). Every handler loop visits every element: the only way out of a top-level loop body is an error return (a break drops the remaining entries). RFC 6902 operations are a left fold of the library's Apply over the document bytes (nothing else produces the running bytes, every successful exit returns them), and the applying function refuses only what the library refuses or a copy of a value into itself. Every list handler writes the rebuilt list back into the document on every accepting path. The copy guard lets an operation through exactly when from has at least as many tokens as path (three orderings). Replace-by-id searches every index of the list. Token unescape order of the copy guard; list accessors hand back every entry; (Document).Bytes reaches json.Marshal / Unmarshal only; document accessors read the member the composer writes; nothing else writes the running document of the fold. The fold rule runs C19.G and C19.H (composer); entries of add / replace patches are stored as they are. Set builders keep every element; every operation's verdict is heeded. The library's copy / move must add at the destination (known finding D15). A computed capacity of make in the composer is held to the rule for lengths (C19.M)."}
 	props["C14"] = &propDef{extraPkgs: []string{jsonPatchPkg}, run: runC14, explanation: "Partial (thin): document→patches→document and bytes round trips are value-level and NOT decided. Decided statically: (X1) each of the eight patch constructors stores ActionKey = its action and exactly one value under actionConfig[action]; (G1) FromBytes succeeds only across GetAction and GetValue of the decoded patch; GetValue looks up actionConfig[own action] and requires that member; GetAction admits only string-typed actions present in actionConfig; (T1) PatchesFromDocument maps publicKey / service / alsoKnownAs to their constructors and every other member to one combined ietf-json-patch 'add /<name>', visits members in sorted order, and succeeds only for documents without an id; (P1) Bytes() serialises the receiver itself; (J1) in the functions reachable from PatchesFromDocument no list separator is written under a loop-index test while the elements are written conditionally (hand-assembled JSON). (K2) every JSON decode in the patch and document packages is a plain encoding/json.Unmarshal; (X3) the json-patch fold and closed-refusal rules of C10. (K3) format strings in pkg/patch are constants; the validator's duplicate test for also-known-as URIs compares the URI's own text. Every constructor stores its value with a generic-JSON dynamic type. A constructor's value is built with decoding and conversion only; the composer stores patch entries' objects as they are. All of C10 and C13 run inside this check; GetAction hands back the action member as it stands. The add-operation text is checked in concatenation form."}
 }
 
@@ -1957,7 +1957,7 @@ func (c *Ctx) jsonPatchFoldRule(rule string) {
 	// … and the copy guard tells "the same element" the way the library does: index tokens read with the library's own
 	// number parser, every Apply call one operation wide and behind the guard (C19.G)
 	// (and no handler of the composer compares two JSON values with ==, which panics on two lists or two objects: C19.H)
-	c.only(runC19, "C19.G", "C19.H::versions/1_0/doccomposer.")
+	c.only(runC19, "C19.G", "C19.H::versions/1_0/doccomposer.", "C19.M::versions/1_0/doccomposer.")
 	c.Min("C19.G", 2)
 	c.Check(rule, "json-patch:operations-threaded-through-the-library", ok, site.Pos(), "RFC 6902 operations are a left fold of the library's Apply over the document bytes "+why)
 }
